@@ -368,7 +368,7 @@ func isHeadNode(v ssa.Value, g *gameModel) bool {
 }
 
 // nodeFieldPrivate: every read of the node field is in PushMove or PopMove.
-func nodeFieldPrivate(c *Ctx, nodeT *types.Named, field string, g *gameModel) bool {
+func nodeFieldPrivate(c *Ctx, nodeT *types.Named, field string, fam map[*ssa.Function]bool) bool {
 	st := nodeT.Underlying().(*types.Struct)
 	idx := -1
 	for i := 0; i < st.NumFields(); i++ {
@@ -380,7 +380,7 @@ func nodeFieldPrivate(c *Ctx, nodeT *types.Named, field string, g *gameModel) bo
 		return false
 	}
 	for _, fn := range c.P.AllFuncs {
-		if fn == g.push || fn == g.pop {
+		if fam[fn] {
 			continue
 		}
 		for _, b := range fn.Blocks {
@@ -408,6 +408,13 @@ func c08NoMut(c *Ctx, g *gameModel) {
 		r.Undecided("R08-nomut", "anchor:board.node", "", "", "type not found")
 		return
 	}
+	// PushMove, PopMove and the helpers of the board package they are split into
+	fam := map[*ssa.Function]bool{}
+	for _, root := range []*ssa.Function{g.push, g.pop} {
+		for _, f := range funcFamily(root) {
+			fam[f] = true
+		}
+	}
 	var bad []string
 	n := 0
 	for _, fs := range allFieldStores(c.P) {
@@ -418,12 +425,12 @@ func c08NoMut(c *Ctx, g *gameModel) {
 		if _, fresh := isFreshAlloc(fs.Base); fresh {
 			continue // literal under construction
 		}
-		if fs.Field == "next" && (fs.Fn == g.push || fs.Fn == g.pop) {
+		if fs.Field == "next" && fam[fs.Fn] {
 			continue
 		}
 		// a slot of the head node that only push/pop ever read (the result saved for the take-back) is
 		// scratch space of the owning board: forks copy the head node, and nothing else looks at it
-		if (fs.Fn == g.push || fs.Fn == g.pop) && !fs.Whole && isHeadNode(fs.Base, g) && nodeFieldPrivate(c, nodeT, fs.Field, g) {
+		if fam[fs.Fn] && !fs.Whole && isHeadNode(fs.Base, g) && nodeFieldPrivate(c, nodeT, fs.Field, fam) {
 			continue
 		}
 		what := fs.Field
